@@ -116,18 +116,23 @@ def gen(args) -> list:
             except Exception as e:  # noqa: BLE001
                 ev["exc"] = type(e).__name__
             evs.append(ev)
-        elif c < 0.415 and cal.id.startswith("Hebrew"):
+        elif c < 0.415:
+            cal = rnd.choice([x for x in cals if x.id.startswith("Hebrew")])
+            base = {"cal": cal.id, "min_year": cal.min_year, "max_year": cal.max_year, "min_day": cal._min_days, "max_day": cal._max_days}
             # two-step histories from empty caches in the calendars that cache more than year starts (the Hebrew year-length cache is
             # shared by both Hebrew calendars): touch year a, then do arithmetic in a year whose neighbour shares a's cache slot
             from harness.props.c13 import cold
 
             calc = cal._year_month_day_calculator
             ka = rnd.randint(1, 8)
-            a = ka * 1024 + rnd.choice([-1, 0, 1])
-            b = a + rnd.choice([1023, 1024, 1025, -1023, -1024, -1025, 1022])
+            if rnd.random() < 0.5:
+                a, b = ka * 1024, ka * 1024 + 1023          # b + 1 falls into the slot that a filled
+            else:
+                a = ka * 1024 + rnd.choice([-1, 0, 1])
+                b = a + rnd.choice([1023, 1024, 1025, -1023, -1024, -1025, 1022])
             if not (cal.min_year <= a <= cal.max_year and cal.min_year <= b <= cal.max_year):
                 continue
-            mb = rnd.randint(1, cal.get_months_in_year(b))
+            mb = rnd.choice([2, 3, 8, 9, rnd.randint(1, cal.get_months_in_year(b))])    # Heshvan / Kislev (either numbering) most of the time
 
             def arithmetic(b=b, mb=mb):
                 out = []
@@ -141,7 +146,11 @@ def gen(args) -> list:
                 return out
 
             try:
-                res = cold(calc, lambda: (LocalDate(a, 1, 1, cal).plus_days(1), arithmetic())[1])
+                def touch(a=a):
+                    # ask about year a the way ordinary use does: a date's day number, a month length, a short hop
+                    return (LocalDate(a, 1, 1, cal)._days_since_epoch, cal.get_days_in_month(a, rnd.randint(1, 12)), LocalDate(a, 3, 1, cal).plus_days(40))
+
+                res = cold(calc, lambda: (touch(), arithmetic())[1])
                 pure = cold(calc, arithmetic)
                 evs.append({"op": "hist", "cal": cal.id, "after_year": a, "year": b, "month": mb, "res": res, "pure": pure})
             except Exception as e:  # noqa: BLE001
